@@ -116,6 +116,15 @@ CLAIMED = {
             'type kind), variables (names, order, dtypes, dimension tuples, masks, bit-identical unmasked data) are compared.',
             'libnetcdf/netCDF4 trusted for on-disk truth; 1-element array attributes == scalars; _FillValue reserved',
             'DESIGN.md section 4 C07'),
+    'C17': ('A', 'model_checking',
+            'bounded-exhaustive enumeration of source/target coordinate pairs and sigma-grid pairs on the real weight/coefficient functions, checked against algebraic laws',
+            'getinterpweights for every pair of strictly monotone source (2-4 levels, both directions) and target (1-4 '
+            'levels) vectors over {0,1,2,4,7,8} with extrapolation on/off: non-negativity, partition of unity, exact '
+            'reproduction of three linear profiles, edge continuation, identity; the same through interpDimension along '
+            'each dimension and through interpvars. sigma2coeff and ioapi interpSigma(conserve) for all 32x32 ordered '
+            'pairs of sigma grids over dyadic levels: fractions in [0,1], every source layer partitioned, target '
+            'thickness reproduced, column integral conserved, constant field constant.',
+            'relative tolerance 1e-12 (float64 laws), 1e-6 through float32 IOAPI data', 'DESIGN.md section 4 C17'),
 }
 
 PENDING_REASON = ('check not built yet in this session; planned per DESIGN.md section 4 '
